@@ -27,6 +27,9 @@ structure SigUnit where
   name : Option (List Char)
   filename : List Char
   records : List (List Nat)
+  /-- the input the unit was read from, as given on the command line (`-` for standard input): what the
+      per-file layouts derive the output file name from -/
+  source : List Char
 
 /-- `set_sig_name`: standard input is recorded as the empty file name -/
 def recordedFilename (filename : List Char) : List Char :=
@@ -39,11 +42,11 @@ def unitsOfFile (singleton nameFromFirst : Bool) (f : SeqFile) : List SigUnit :=
   | [] => []
   | first :: rest =>
     if singleton then
-      (first :: rest).map (fun r => ⟨some r.1, recordedFilename f.name, [r.2]⟩)
+      (first :: rest).map (fun r => ⟨some r.1, recordedFilename f.name, [r.2], f.name⟩)
     else
       -- `name = record.name` only for n = 0, only with --name-from-first
       [⟨if nameFromFirst then some first.1 else none, recordedFilename f.name,
-        (first :: rest).map Prod.snd⟩]
+        (first :: rest).map Prod.snd, f.name⟩]
 
 def lastName (files : List SeqFile) : List Char :=
   match files.getLast? with
@@ -59,7 +62,7 @@ def plan (mode : NameMode) (files : List SeqFile) : List SigUnit :=
     -- `_compute_merged`: nothing is written when no record was read; `filename` is the loop
     -- variable after the loop, i.e. the LAST input file (even if that file was empty)
     let all := files.flatMap (fun f => f.records.map Prod.snd)
-    if all.isEmpty then [] else [⟨some nm, recordedFilename (lastName files), all⟩]
+    if all.isEmpty then [] else [⟨some nm, recordedFilename (lastName files), all, lastName files⟩]
 
 /-! ### where the signatures go: `-o FILE`, `--output-dir DIR`, or next to nothing (cwd) -/
 
@@ -94,7 +97,17 @@ def planOutputs (mode : NameMode) (o : OutMode) (files : List SeqFile) :
     let us := plan mode files
     -- whether `_compute_individual` creates the directory (patches/C14.2) is read from the source by the translator
     if us.isEmpty then .ok [] else if !(ex || Gen.sketchCreatesOutdir) then .error .noDir
-    else .ok (us.map (fun u => ("outd/".toList ++ basename u.filename ++ ".sig".toList, u)))
-  | _, .cwd => .ok ((plan mode files).map (fun u => (basename u.filename ++ ".sig".toList, u)))
+    else .ok (us.map (fun u => ("outd/".toList ++ basename u.source ++ ".sig".toList, u)))
+  | _, .cwd => .ok ((plan mode files).map (fun u => (basename u.source ++ ".sig".toList, u)))
+
+/-- `_compute_individual`, per-file layouts (`--output-dir` / current directory): an input whose output file
+    already exists is skipped before it is opened, unless `--force` is given; with `-o` and with `--merge` the
+    existing file plays no role -/
+def skipExisting (mode : NameMode) (o : OutMode) (force : Bool) (existing : SeqFile → Bool) (files : List SeqFile) :
+    List SeqFile :=
+  match mode, o with
+  | .merge _, _ => files
+  | _, .single => files
+  | _, _ => if force then files else files.filter (fun f => !existing f)
 
 end Sm.Sketch
